@@ -236,7 +236,10 @@ class OpRemove(Op):
         elif isinstance(parent, MutableMapping):
             if obj is UNDEFINED:
                 raise JSONPatchError("can't remove nonexistent property")
-            del parent[_member_name(parent, self.path.parts[-1])]
+            try:
+                del parent[_member_name(parent, self.path.parts[-1])]
+            except KeyError as err:
+                raise JSONPatchError("can't remove nonexistent property") from err
         else:
             raise JSONPatchError(
                 f"unexpected operation on {parent.__class__.__name__!r}"
@@ -314,7 +317,12 @@ class OpMove(Op):
         if isinstance(source_parent, MutableSequence):
             del source_parent[_array_index(self.source.parts[-1])]
         if isinstance(source_parent, MutableMapping):
-            del source_parent[_member_name(source_parent, self.source.parts[-1])]
+            try:
+                del source_parent[
+                    _member_name(source_parent, self.source.parts[-1])
+                ]
+            except KeyError as err:
+                raise JSONPatchError("source object does not exist") from err
 
         # RFC 6902: a move is a remove at "from" followed by an add at "path".
         return OpAdd(self.dest, source_obj).apply(data)
